@@ -74,7 +74,13 @@ CHECKS += [
  cluster("C12", "6/C12", "TLC checks that after leader loss at a quiescent point, graceful stop and restart of a follower as leader, every replicated user key is served and the grave goods / last wills of all clients connected to the old leader are applied; real runs promote a follower configured from the role flags alone and the recovered state is validated."),
 ]
 
-PENDING = ["C18","C19","C20"]
+c18 = core("C18", "6/C18", "TLC checks the writer / batcher / crash / load model of the ReDB backend for every interleaving of enqueueing, writer transactions and stops within the bounds: the recovered state is the state after a prefix of the applied changes (the committed one; all of them after a clean stop), registrations applied, versions kept. Real servers with the ReDB backend are stopped abruptly or cleanly after seeded histories and TLC decides whether some prefix explains what a second server on the same file recovered.")
+c18["engine"] = "tlc-redb"
+c18["technique"] = "TLA+ spec (Redb) checked by TLC; real ReDB-backed servers stopped abruptly/cleanly, recovered state validated by TLC as a prefix cut of the replayed history"
+c18["level_note"] = "Trusted: TLC, redb's own commit atomicity, the harness (runtime drop as process death). Cuts inside a redb commit are not produced; grave goods of one client only; values that collide with the file format (C09's findings) are avoided."
+CHECKS.append(c18)
+
+PENDING = ["C19","C20"]
 
 def main():
     import props
@@ -89,7 +95,9 @@ def main():
                         enable="the harness crate /verif/harness depends on /repo/worterbuch with default-features=false, features=[\"verif\",\"redb\"]",
                         baseline_off_cmd=BASELINE,
                         source_commits=["e19d4a5", "8c537d5", "d18b355"], add_only=True),
-             engines=[dict(name="tlc-cluster", path="spec/Cluster.tla spec/Trace_Cluster.tla spec/MC_C11.tla harness/src/cluster_drv.rs",
+             engines=[dict(name="tlc-redb", path="spec/Redb.tla spec/Trace_Redb.tla harness/src/redb_drv.rs",
+                           serves_properties=["C18"], kind_free_text="TLA+ model of queue, batching writer, crash and load; TLC; prefix-cut validation of real recoveries"),
+                      dict(name="tlc-cluster", path="spec/Cluster.tla spec/Trace_Cluster.tla spec/MC_C11.tla harness/src/cluster_drv.rs",
                            serves_properties=["C11", "C12"], kind_free_text="TLA+ model of leader, command channels, followers, promotion; TLC; real multi-server runs validated"),
                       dict(name="tlc-aggregator", path="spec/Aggregator.tla spec/Trace_Aggregator.tla harness/src/agg_drv.rs",
                            serves_properties=["C16"], kind_free_text="TLA+ step machine with discrete time, TLC safety+liveness, paused-clock trace validation"),
